@@ -121,7 +121,12 @@ private:
       ++iterations;
       for (unsigned i = 0, e = order.size(); i < e; ++i) {
         auto const &n = order[i];
-        auto out = (i == 0 ? m_analysis.entry() : killgen_domain_t::bottom());
+        // The initial state of a backward analysis belongs to the exit
+        // block. order[0] is only some sink of the graph: with several
+        // sinks (or blocks unreachable from the entry) it need not be
+        // the exit.
+        bool is_initial = (m_cfg.has_exit() ? (n == m_cfg.exit()) : (i == 0));
+        auto out = (is_initial ? m_analysis.entry() : killgen_domain_t::bottom());
         for (auto const &p : m_cfg.next_nodes(n))
           out = m_analysis.merge(out, m_in_map[p]);
         auto old_in = m_in_map[n];
